@@ -75,15 +75,18 @@ def rq_doc_wf(text):
         return None
 
 
-def rq_operator_names(text):
-    """names of the Operator nodes of an RQ document"""
+OP_ARITIES = {}      # operator name -> numbers of arguments seen in the RQs prqlc emitted in this run (filled by run())
+
+
+def rq_operator_names(text, with_arity=False):
+    """names (or (name, number of arguments)) of the Operator nodes of an RQ document"""
     out = []
 
     def walk(v):
         if isinstance(v, dict):
             op = v.get("Operator")
             if isinstance(op, dict) and isinstance(op.get("name"), str):
-                out.append(op["name"])
+                out.append((op["name"], len(op["args"]) if isinstance(op.get("args"), list) else -1) if with_arity else op["name"])
             for x in v.values():
                 walk(x)
         elif isinstance(v, list):
@@ -104,7 +107,9 @@ PRED = {
     "mutated-rq-json": lambda c: (c["entry"] == "json_rq" and c.get("family", "").startswith("json:") and c.get("family") not in ("json:orig", "json:int:lit")
                                   and rq_doc_wf(c["src"]) is not True),
     # C12-N16: an RQ (from JSON) with an operator whose name does not start with `std.`
-    "rq-operator-without-std-prefix": lambda c: c["entry"] == "json_rq" and any(not n.startswith("std.") for n in rq_operator_names(c["src"])),
+    "rq-operator-without-std-prefix": lambda c: c["entry"] == "json_rq" and (
+        any(not n.startswith("std.") for n in rq_operator_names(c["src"]))
+        or any(n in OP_ARITIES and k not in OP_ARITIES[n] for n, k in rq_operator_names(c["src"], with_arity=True))),
     # C12-N17: a table reference with a nameless column
     "rq-nameless-tableref-column": lambda c: c["entry"] == "json_rq" and re.search(r'\[\s*\{\s*"Single"\s*:\s*null\s*\}\s*,\s*\d+\s*\]', c["src"]) is not None,
     # C12-N15: the internal tuple helpers of std called from source
@@ -446,6 +451,10 @@ def run():
     # 4. PL / RQ JSON: originals, single mutations, raw documents
     pl = harness("pl", [{"src": p} for p in progs])
     rq = harness("rq", [{"src": p} for p in progs])
+    for a in rq:
+        if "ok" in a:
+            for n, k in rq_operator_names(json.dumps(a["ok"]), with_arity=True):
+                OP_ARITIES.setdefault(n, set()).add(k)
     kj = ck.n(12, 120) * boost
     for p, a in zip(progs, pl):
         if "ok" in a:
